@@ -836,7 +836,7 @@ func (c *fsClient) Call(x *Exec, st *State, fr *Frame, site ssa.CallInstruction,
 		return ret(mk("nameof", "", nil, args[0]))
 	case "(*os.File).Stat":
 		return ret(tupleOf(mk("fileinfo", "", nil, args[0]), tNil))
-	case "(time.Time).Before":
+	case "(time.Time).Before", "(time.Time).After":
 		// the deadline lies in the future when the loop is first entered
 		if len(x.marks) > 0 {
 			all := strings.Replace(x.curMark().key, "loopcur[", "loopall[", 1)
